@@ -186,15 +186,25 @@ def unhex(h):
     return "" if h == "-" else bytes.fromhex(h).decode("latin-1")
 
 
+def fresh(x):
+    """an int object made at run time (class 2: not a shared compile-time constant; outside [-5, 256] it is
+    never the identical object twice, so an identity test where equality is meant shows)"""
+    return int(str(x))
+
+
 class Gen:
     """grammar-based generator of cspuz trees over a given variable vocabulary."""
 
-    def __init__(self, rng, bvars, ivars):
+    def __init__(self, rng, bvars, ivars, lits=None):
         self.rng, self.bvars, self.ivars = rng, bvars, ivars
+        self.lits = lits  # literal pool near the domains (small exhaustive programs)
 
     def int_lit(self):
         r = self.rng
-        return r.choice([0, 1, -1, 2, 3, 5, -7, 10, 42, -100, 10 ** 9, -(10 ** 12), r.randint(-20, 20)])
+        if self.lits and r.random() < 0.85:
+            return fresh(r.choice(self.lits))
+        return fresh(r.choice([0, 1, -1, 2, 3, 5, -7, 10, 42, -100, 10 ** 9, -(10 ** 12), r.randint(-20, 20),
+                               -5, -6, 256, 257, 4095, 4096, 65536, r.randint(-5000, 5000)]))
 
     def gint(self, d):
         from cspuz.expr import IntExpr, Op
@@ -297,8 +307,11 @@ def gen_domain(rng):
     if k < 0.65:
         v = rng.randint(-50, 50)
         return v, v
-    if k < 0.8:
+    if k < 0.75:
         return -rng.randint(1, 10 ** 6), rng.randint(0, 10 ** 6)
+    if k < 0.87:
+        lo = rng.choice([-7, -6, -5, 254, 255, 256, 257, 999, 4094, 65535])
+        return fresh(lo), fresh(lo + rng.randint(0, 4))
     return rng.randint(-9, 0), rng.randint(0, 9)
 
 
@@ -307,6 +320,8 @@ def gen_program(rng, malformed=False):
     from cspuz import Solver
     s = Solver()
     nv = rng.choice([0, 1, 2, 3, 4, 5, 6, 8, 12])
+    if rng.random() < 0.03:
+        nv = rng.choice([30, 101, 130])  # ids with two and three digits
     bvars, ivars = [], []
     for _ in range(nv):
         if rng.random() < 0.5:
@@ -328,11 +343,25 @@ def gen_program(rng, malformed=False):
     for c in cs:
         s.constraints.append(c)  # what Solver.ensure appends (bool / BoolExpr), without its flattening
     mode = rng.random()
+    chosen = []
     for v in s.variables:
         if mode < 0.15:
             continue
         if mode > 0.85 or rng.random() < 0.5:
+            chosen.append(v)
+    form = rng.randrange(5)  # one by one / list / star-args / tuple + list / nested
+    if form == 0:
+        for v in chosen:
             s.add_answer_key(v)
+    elif form == 1:
+        s.add_answer_key(chosen)
+    elif form == 2:
+        s.add_answer_key(*chosen)
+    elif form == 3:
+        k = rng.randint(0, len(chosen))
+        s.add_answer_key(tuple(chosen[:k]), chosen[k:])
+    else:
+        s.add_answer_key([[v] for v in chosen])
     return s
 
 
@@ -470,11 +499,41 @@ def stale_sols(variables):
         v.sol = (v.id % 2 == 0) if isinstance(v, BoolVar) else 777 + v.id
 
 
-def run_solver_flow(ctx, m, solver, backend, deduction, responder):
+FORMS = ["name", "name", "pos", "class", "default", "none"]
+
+
+def call_api(solver, api, backend, form):
+    """Solver.solve / Solver.find_answer with the backend given in one of the accepted ways (class 6):
+    keyword name, positional name, the backend class itself, omitted / None with config.default_backend."""
+    from cspuz.configuration import config
+    from cspuz.solver import _get_backend_by_name
+    f = solver.solve if api == "solve" else solver.find_answer
+    if form == "name":
+        return f(backend=backend)
+    if form == "pos":
+        return f(backend)
+    if form == "class":
+        return f(backend=_get_backend_by_name(backend))
+    saved = config.default_backend
+    config.default_backend = backend
+    try:
+        return f() if form == "default" else f(backend=None)
+    finally:
+        config.default_backend = saved
+
+
+def args_snapshot(solver):
+    from cspuz.expr import IntVar
+    return (exprio.show_list(solver.constraints), list(solver.is_answer_key), [id(v) for v in solver.variables],
+            [(v.id, v.lo, v.hi) if isinstance(v, IntVar) else v.id for v in solver.variables])
+
+
+def run_solver_flow(ctx, m, solver, backend, deduction, responder, form="name", stale=True):
     """Solver.find_answer / Solver.solve with fakes installed.  Returns (outcome, calls, posted):
     outcome = ("ok", [ret, sols...]) | ("err", name); calls = recorded (entry, args, text);
     posted = trees handed to add_constraint after the initial list (the refuting clauses of the
-    non-native route), one list per _call_solver call."""
+    non-native route), one list per _call_solver call.  stale=False keeps what an earlier call on the
+    same Solver left in the sol fields (histories)."""
     import cspuz.backend.sugar_like as sl
     posted_before_call = []
     extra = []
@@ -492,21 +551,33 @@ def run_solver_flow(ctx, m, solver, backend, deduction, responder):
         posted_before_call.append(list(extra))
         return responder(i, text)
 
-    stale_sols(solver.variables)
+    if stale:
+        stale_sols(solver.variables)
+    before = args_snapshot(solver)
     with Fakes(resp) as fk:
         sl.SugarLikeBackend.add_constraint = spy_add
         try:
             with warnings.catch_warnings():
                 warnings.simplefilter("ignore")
-                if deduction:
-                    out = vlib.guarded(lambda: solver.solve(backend=backend))
-                else:
-                    out = vlib.guarded(lambda: solver.find_answer(backend=backend))
+                out = vlib.guarded(lambda: call_api(solver, "solve" if deduction else "find_answer", backend, form))
         finally:
             sl.SugarLikeBackend.add_constraint = orig_add
+    after = args_snapshot(solver)
+    if after != before:
+        # what the caller passed in (constraint list, key flags, variable list) is the caller's (class 3)
+        ctx.violation("args-changed:%s:%s" % (backend, "solve" if deduction else "find_answer"),
+                      "the Solver's constraints / answer keys / variables were modified by the call",
+                      {"before": before[:2] + (before[3],), "after": after[:2] + (after[3],)})
     if out[0] == "ok":
         out = ("ok", ["1" if out[1] is True else "0" if out[1] is False else repr(out[1])] + observe_sol(solver.variables))
     return out, fk.calls, posted_before_call
+
+
+def flat_posted(extra):
+    flat = []
+    for x in extra:
+        flat += x if isinstance(x, list) else [x]
+    return flat
 
 
 def model_desc(m, backend, mode, variables, keys, constraints):
@@ -542,100 +613,156 @@ def expected_entry(backend):
 
 # ------------------------------------------------------------------ correspondence (C)
 
+def flow_case(ctx, m, rng, solver, backend, deduction, kinds, malformed=False, stale=True, sat=None,
+              allow_bad=True, pre=""):
+    """one Solver.find_answer / Solver.solve call through the fakes, compared with the model:
+    text and entry point of every call, (return value, sol vector | error) with the reply parsers.
+    The program is taken as it is now (histories call this several times on one Solver)."""
+    from cspuz.configuration import config
+    native, subproc, entry = kinds[backend]
+    variables, keys, cons = solver.variables, list(solver.is_answer_key), list(solver.constraints)
+    ptag = exprio.show_state(solver)
+    ctx.count("flow:%s:%s" % (backend, "solve" if deduction else "find_answer"))
+    asg = gen_assignment(rng, variables, wild=rng.random() < 0.2)
+    asg2 = gen_assignment(rng, variables)
+    if sat is None:
+        sat = rng.random() < 0.85
+    refuted = [name_of(v) for v in variables if rng.random() < 0.3]
+    bad_reply = allow_bad and (not malformed) and rng.random() < 0.25 and (native or not deduction)
+    form = rng.choice(FORMS)
+    ctx.count("form:" + form)
+    replies = []
+    saved_timeout, saved_path = config.solver_timeout, config.backend_path
+    if subproc and rng.random() < 0.1:
+        config.solver_timeout = 5.0
+    if subproc and rng.random() < 0.3:
+        config.backend_path = rng.choice(["", "/opt/sugar/bin/sugar", "sugar_ext.sh", "./csugar"])
+
+    def responder(i, text):
+        if i > 8:
+            raise RuntimeError("more than 9 solver calls for a 3-answer plan")
+        if deduction and not native:
+            # refinement loop of Solver.solve: sat, (sat,) unsat
+            plan = [asg, asg2, None]
+            cur = plan[min(i, 2)] if sat else None  # the third answer is always unsat: the loop ends
+            rep = java_reply(m, text, cur)
+        else:
+            rep = java_reply(m, text, asg if sat else None, refuted)
+        if rep is None:
+            rep = "s UNSATISFIABLE\n"
+            ctx.note("java side could not read the text of %s" % ptag[:200])
+        if bad_reply:
+            rep = mutate_reply(rng, rep, len(variables))
+        replies.append(rep)
+        return rep
+
+    try:
+        exp_entry = expected_entry(backend) if subproc else None
+        out, calls, posted = run_solver_flow(ctx, m, solver, backend, deduction, responder, form=form, stale=stale)
+    finally:
+        config.solver_timeout, config.backend_path = saved_timeout, saved_path
+    tag = (ptag, backend, deduction)
+    # 1. text + entry point of every call
+    mode_native = deduction and native
+    texts_ok = True
+    for ci, (ent, args, text) in enumerate(calls):
+        flat = flat_posted(posted[ci] if ci < len(posted) else [])
+        md = model_desc(m, backend, "D" if mode_native else "A", variables, keys, cons + flat)
+        texts_ok &= ctx.corr(pre + "text", (tag, ci), md, ("ok", text))
+        ctx.corr(pre + "entry", (backend, ci, form, exp_entry and exp_entry[0]), (entry, exp_entry), (ent, args))
+    if not calls:
+        # the conversion failed before any call: same error from the model
+        md = model_desc(m, backend, "D" if deduction else "A", variables, keys, cons)
+        if md[0] == "err" and md[1] == "NotImplementedError":
+            md = model_desc(m, backend, "A", variables, keys, cons)
+        ctx.corr(pre + "text-error", tag, md, out)
+        return out
+    # 2. the reply parser
+    if deduction and not native:
+        # sol fields are then set by Solver.solve's loop (C02); each call's parse is compared through the
+        # backend-class flows (direct_api / direct_history); the loop as a whole in search (reference solver)
+        ctx.corr(pre + "loop-calls", tag, len(calls) >= 1, True)
+        if not malformed and texts_ok:
+            ctx._c03_loops.append(dict(variables=variables, keys=keys, cons=cons, tag=ptag,
+                                       texts=[c[2] for c in calls],
+                                       posted=[flat_posted(x) for x in posted],
+                                       flow={"kind": "canned-loop", "program": ptag,
+                                             "plan": [asg, asg2] if sat else []}))
+    else:
+        req = "%s %s %s" % ("PD" if deduction else "PA", vars_tok(variables), hexs(replies[0]))
+        mo = parse_model_res(m.call(req))
+        ctx.corr(pre + ("reply-bad" if bad_reply else "reply"), (tag, replies[0]), mo, out)
+        if not bad_reply and not malformed and texts_ok:
+            ctx._c03.append(dict(variables=variables, keys=keys, cons=cons, backend=backend, deduction=deduction,
+                                 text=calls[0][2], asg=asg if sat else None, refuted=refuted, out=out, tag=ptag,
+                                 is_state=True))
+    return out
+
+
 def correspond(ctx):
     m = ctx.model("C03")
     rng = ctx.rng
     ctx._c03 = []  # material for search
+    ctx._c03_loops = []
     n_prog = 4000 if ctx.thorough else 600
     n_mal = 1000 if ctx.thorough else 150
     kinds = {b: kind_info(m, b) for b in BACKENDS}
-    from cspuz.configuration import config
 
     for pi in range(n_prog + n_mal):
         malformed = pi >= n_prog
         solver = gen_program(rng, malformed=malformed)
-        variables, keys, cons = solver.variables, solver.is_answer_key, solver.constraints
-        ptag = exprio.show_state(solver)
         backends = BACKENDS if (pi % 3 == 0 or ctx.thorough) else [BACKENDS[pi % 5], BACKENDS[(pi * 7 + 2) % 5]]
+        if len(solver.variables) > 20 and not ctx.thorough:
+            backends = backends[:2]
         for backend in backends:
-            native, subproc, entry = kinds[backend]
             for deduction in (False, True):
-                ctx.count("flow:%s:%s" % (backend, "solve" if deduction else "find_answer"))
-                asg = gen_assignment(rng, variables, wild=rng.random() < 0.2)
-                sat = rng.random() < 0.85
-                refuted = [name_of(v) for v in variables if rng.random() < 0.3]
-                bad_reply = (not malformed) and rng.random() < 0.25 and (native or not deduction)
-                replies = []
-                saved_timeout = config.solver_timeout
-                if subproc and rng.random() < 0.1:
-                    config.solver_timeout = 5.0
-
-                def responder(i, text):
-                    if deduction and not native:
-                        # refinement loop of Solver.solve: sat, (sat,) unsat
-                        plan = [asg, gen_assignment(rng, variables), None]
-                        cur = plan[min(i, 2)] if sat else None  # the third answer is always unsat: the loop ends
-                        rep = java_reply(m, text, cur)
-                    else:
-                        rep = java_reply(m, text, asg if sat else None, refuted)
-                    if rep is None:
-                        rep = "s UNSATISFIABLE\n"
-                        ctx.note("java side could not read the text of %s" % ptag[:200])
-                    if bad_reply:
-                        rep = mutate_reply(rng, rep, len(variables))
-                    replies.append(rep)
-                    return rep
-
-                try:
-                    out, calls, posted = run_solver_flow(ctx, m, solver, backend, deduction, responder)
-                finally:
-                    config.solver_timeout = saved_timeout
-                tag = (ptag, backend, deduction)
-                # 1. text + entry point of every call
-                mode_native = deduction and native
-                texts_ok = True
-                for ci, (ent, args, text) in enumerate(calls):
-                    extra = posted[ci] if ci < len(posted) else []
-                    flat = []
-                    for x in extra:
-                        flat += x if isinstance(x, list) else [x]
-                    md = model_desc(m, backend, "D" if mode_native else "A", variables, keys, cons + flat)
-                    texts_ok &= ctx.corr("text", (tag, ci), md, ("ok", text))
-                    ctx.corr("entry", (backend, ci), (entry, expected_entry(backend) if subproc else None), (ent, args))
-                if not calls:
-                    # the conversion failed before any call: same error from the model
-                    md = model_desc(m, backend, "D" if deduction else "A", variables, keys, cons)
-                    if md[0] == "err" and md[1] == "NotImplementedError":
-                        md = model_desc(m, backend, "A", variables, keys, cons)
-                    ctx.corr("text-error", tag, md, out)
-                    continue
-                # 2. the reply parser
-                if deduction and not native:
-                    # sol fields are then set by Solver.solve's loop (C02); compare each call's parse
-                    # through the backend-class flow below instead
-                    ctx.corr("loop-calls", tag, len(calls) >= 1, True)
-                else:
-                    req = "%s %s %s" % ("PD" if deduction else "PA", vars_tok(variables), hexs(replies[0]))
-                    mo = parse_model_res(m.call(req))
-                    ctx.corr("reply-bad" if bad_reply else "reply", (tag, replies[0]), mo, out)
-                    if not bad_reply and not malformed and texts_ok:
-                        ctx._c03.append(dict(solver=solver, backend=backend, deduction=deduction, text=calls[0][2],
-                                             asg=asg if sat else None, refuted=refuted, out=out, tag=ptag))
+                flow_case(ctx, m, rng, solver, backend, deduction, kinds, malformed=malformed)
         if not malformed and pi % 2 == 0:
             direct_api(ctx, m, rng, solver)
+        if not malformed and pi % 4 == 1:
+            direct_history(ctx, m, rng, solver)
+        if not malformed and pi % 4 == 3:
+            history_corr(ctx, m, rng, kinds)
 
     pystr_validation(ctx, m, rng)
 
 
-def direct_api(ctx, m, rng, solver):
-    """SugarLikeBackend subclasses used directly: arbitrary variable lists (ids, order), add_constraint
-    with a list and with single trees, key lists of any length, replies well-formed and malformed."""
-    from cspuz.expr import BoolVar, IntVar
-    from cspuz.solver import _get_backend_by_name
-    backend = rng.choice(BACKENDS)
-    cls = _get_backend_by_name(backend)
-    # re-number: random distinct ids in random order, sometimes a duplicate
-    ids = rng.sample(range(0, 3 * len(solver.variables) + 4), len(solver.variables))
+def history_corr(ctx, m, rng, kinds):
+    """class 3: one Solver used for several calls (any mix of find_answer / solve and of backends); between
+    two calls more constraints are posted through Solver.ensure and sometimes one more key is registered;
+    nothing resets the sol fields in between, and the later replies are unsat half of the time."""
+    from cspuz.expr import BoolVar
+    solver = gen_program(rng)
+    if len(solver.variables) > 20:
+        return
+    bvars = [v for v in solver.variables if isinstance(v, BoolVar)]
+    ivars = [v for v in solver.variables if not isinstance(v, BoolVar)]
+    g = Gen(rng, bvars, ivars)
+    for step in range(rng.choice([2, 2, 3])):
+        backend = rng.choice(BACKENDS)
+        deduction = rng.random() < 0.6
+        sat = True if step == 0 else rng.random() < 0.5
+        ctx.count("history:step%d:%s" % (step, "sat" if sat else "unsat"))
+        flow_case(ctx, m, rng, solver, backend, deduction, kinds, stale=(step == 0 and rng.random() < 0.5), sat=sat,
+                  allow_bad=False, pre="hist-")
+        new = [g.gbool(rng.choice([0, 1, 2])) for _ in range(rng.choice([0, 1, 1, 2]))]
+        if rng.random() < 0.5:
+            solver.ensure(new)
+        else:
+            for c in new:
+                solver.ensure(c)
+        rest = [v for v, k in zip(solver.variables, solver.is_answer_key) if not k]
+        if rest and rng.random() < 0.3:
+            solver.add_answer_key(rng.choice(rest))
+
+
+def renumbered(rng, solver):
+    """the program over fresh variable objects with random distinct ids in random order (sometimes a
+    duplicate id, sometimes ids beyond the small-int cache / with three or four digits)"""
+    from cspuz.expr import BoolVar, IntVar, Expr
+    n = len(solver.variables)
+    base = rng.choice([0] * 6 + [250, 995, 4090])
+    ids = [fresh(base + i) for i in rng.sample(range(0, 3 * n + 4), n)]
     if len(ids) >= 2 and rng.random() < 0.05:
         ids[1] = ids[0]
     ren = {}
@@ -646,13 +773,104 @@ def direct_api(ctx, m, rng, solver):
         variables.append(nv)
 
     def rn(e):
-        from cspuz.expr import Expr
         if id(e) in ren:
             return ren[id(e)]
         if isinstance(e, Expr):
             return type(e)(e.op, [rn(x) for x in e.operands])
         return e
-    cons = [rn(c) for c in solver.constraints]
+    return variables, [rn(c) for c in solver.constraints]
+
+
+def direct_history(ctx, m, rng, solver):
+    """class 3 on the backend object: several rounds of (add_constraint with a list and / or single trees,
+    then solve() or solve_irrefutably(keys)) on ONE object; every description is compared with the model's
+    description of everything posted so far, every outcome with the reply parsers; later replies are unsat
+    half of the time and nothing resets the sol fields in between.  Containers: variables / keys as list or
+    tuple (class 6)."""
+    from cspuz.expr import BoolVar
+    from cspuz.solver import _get_backend_by_name
+    if len(solver.variables) > 20:
+        return
+    backend = rng.choice(BACKENDS)
+    cls = _get_backend_by_name(backend)
+    variables, pool = renumbered(rng, solver)
+    g = Gen(rng, [v for v in variables if isinstance(v, BoolVar)], [v for v in variables if not isinstance(v, BoolVar)])
+    keys = [rng.random() < 0.5 for _ in variables]
+    vcont = rng.choice([list, tuple])
+    kcont = rng.choice([list, tuple])
+    vtok = vars_tok(variables)
+    made = vlib.guarded(lambda: cls(vcont(variables)))
+    if made[0] != "ok":
+        ctx.corr("dhist-init", (vtok, backend), ("ok",), made[:1])
+        return
+    b = made[1]
+    posted = []
+    if rng.random() < 0.5:
+        stale_sols(variables)
+    for rnd in range(rng.choice([2, 3, 3, 4])):
+        k = rng.choice([0, 1, 1, 2, 3])
+        new = [pool.pop(0) if pool and rng.random() < 0.7 else g.gbool(rng.choice([0, 1, 2])) for _ in range(k)]
+        split = rng.randint(0, len(new))
+        arg = list(new[:split])
+        deduction = rng.random() < 0.5
+        if rnd and rng.random() < 0.5:
+            keys = [rng.random() < 0.5 for _ in variables]  # another key selection on the same object
+        sat = rng.random() < (0.8 if rnd == 0 else 0.5)
+        asg = gen_assignment(rng, variables, wild=rng.random() < 0.2)
+        refuted = [name_of(v) for v in variables if rng.random() < 0.3]
+        replies = []
+
+        def responder(i, text):
+            rep = java_reply(m, text, asg if sat else None, refuted) or "s UNSATISFIABLE\n"
+            replies.append(rep)
+            return rep
+
+        def go():
+            if arg or rng.random() < 0.5:
+                b.add_constraint(arg)
+            for c in new[split:]:
+                b.add_constraint(c)
+            return b.solve_irrefutably(kcont(keys)) if deduction else b.solve()
+        with Fakes(responder) as fk:
+            with warnings.catch_warnings():
+                warnings.simplefilter("ignore")
+                out = vlib.guarded(go)
+        ctx.count("dhist:round%d:%s" % (rnd, "sat" if sat else "unsat"))
+        if len(arg) != split or any(x is not y for x, y in zip(arg, new)):
+            ctx.violation("args-changed:%s:add_constraint" % backend, "add_constraint modified the list it was given",
+                          {"given": exprio.show_list(new[:split]), "after": repr(arg)})
+        posted += new
+        if out[0] == "ok":
+            out = ("ok", ["1" if out[1] is True else "0" if out[1] is False else repr(out[1])] + observe_sol(variables))
+        tag = (vtok, exprio.show_list(posted), tuple(keys), backend, deduction, rnd)
+        md = model_desc(m, backend, "D" if deduction else "A", variables, keys, posted)
+        if not fk.calls:
+            ctx.corr("dhist-text-error", tag, md, out)
+            if md[0] == "err" and md[1] != "NotImplementedError":
+                return  # a failed conversion may leave a partial list behind (list += map(...)): not followed
+            continue
+        text_ok = ctx.corr("dhist-text", tag, md, ("ok", fk.calls[0][2]))
+        ctx.corr("dhist-calls", tag, 1, len(fk.calls))
+        req = "%s %s %s" % ("PD" if deduction else "PA", vtok, hexs(replies[0]))
+        ctx.corr("dhist-reply", (tag, replies[0]), parse_model_res(m.call(req)), out)
+        if text_ok and len(set(v.id for v in variables)) == len(variables):
+            ctx._c03.append(dict(variables=variables, keys=list(keys), cons=list(posted), backend=backend,
+                                 deduction=deduction, text=fk.calls[0][2], asg=asg if sat else None, refuted=refuted,
+                                 out=out, tag="VARS %s K %s C %s round %d" % (vtok, [int(k) for k in keys],
+                                                                          exprio.show_list(posted), rnd),
+                                 is_state=False))
+
+
+def direct_api(ctx, m, rng, solver):
+    """SugarLikeBackend subclasses used directly: arbitrary variable lists (ids, order), add_constraint
+    with a list and with single trees, key lists of any length, replies well-formed and malformed."""
+    from cspuz.expr import BoolVar, IntVar
+    from cspuz.solver import _get_backend_by_name
+    backend = rng.choice(BACKENDS)
+    cls = _get_backend_by_name(backend)
+    variables, cons = renumbered(rng, solver)
+    vcont = rng.choice([list, list, tuple])  # class 6: the backend classes only iterate / index their arguments
+    kcont = rng.choice([list, list, tuple])
     klen = rng.choice([len(variables)] * 6 + [max(0, len(variables) - 1), len(variables) + 2, 0])
     keys = [rng.random() < 0.5 for _ in range(klen)]
     deduction = rng.random() < 0.5
@@ -672,11 +890,11 @@ def direct_api(ctx, m, rng, solver):
     split = rng.randint(0, len(cons))
 
     def go():
-        b = cls(variables)
+        b = cls(vcont(variables))
         b.add_constraint(cons[:split])
         for c in cons[split:]:
             b.add_constraint(c)
-        return b.solve_irrefutably(keys) if deduction else b.solve()
+        return b.solve_irrefutably(kcont(keys)) if deduction else b.solve()
     stale_sols(variables)
     with Fakes(responder) as fk:
         with warnings.catch_warnings():
@@ -740,18 +958,16 @@ def expected_decl(v):
     return "i:%s:%d:%d" % (hexs("i%d" % v.id), v.lo, v.hi)
 
 
-def check_text_property(ctx, m, rng, solver, text, deduction, where):
+def check_text_property(ctx, m, rng, variables, keys, cons, text, deduction, where, ptag, more=None):
     """the emitted text, read by the reference parser, declares exactly the variables, names exactly the
-    keys and denotes exactly the posted constraints."""
-    from cspuz.expr import BoolVar
-    variables, keys, cons = solver.variables, solver.is_answer_key, solver.constraints
-    ptag = exprio.show_state(solver)
+    keys and denotes exactly the posted constraints (`cons` = everything posted up to this description)."""
+    more = more or {}
     r = m.call("JL " + hexs(text)).split()
-    ctx.prop_case("text-read", (ptag, deduction))
+    ctx.prop_case("text-read", (ptag, deduction, more.get("call", 0)))
     if r[0] != "OK":
         ctx.violation("unreadable:" + where, "the emitted description is not a sequence of S-expressions",
-                      {"program": ptag, "text": text})
-        return
+                      dict({"program": ptag, "text": text}, **more))
+        return False
 
     def take(i):
         assert r[i] == "["
@@ -766,24 +982,28 @@ def check_text_property(ctx, m, rng, solver, text, deduction, where):
         jkeys, i = take(i + 1)
     decls, i = take(i + 1)
     nc = int(r[i + 1])
+    ok = True
     want_decls = [expected_decl(v) for v in variables]
     if decls != want_decls:
+        ok = False
         ctx.violation("decls:" + where, "declarations in the text differ from the Solver's variables",
-                      {"program": ptag, "text": text, "declared": decls, "expected": want_decls})
+                      dict({"program": ptag, "text": text, "declared": decls, "expected": want_decls}, **more))
     want_keys = [hexs(name_of(v)) for v, k in zip(variables, keys) if k] if deduction else None
     got_keys = None if jkeys is None else [k for k in jkeys if k != "-"]
     if got_keys != want_keys:
+        ok = False
         ctx.violation("keys:" + where, "answer keys named in the text differ from the registered ones",
-                      {"program": ptag, "text": text, "named": got_keys, "expected": want_keys})
+                      dict({"program": ptag, "text": text, "named": got_keys, "expected": want_keys}, **more))
     if nc != len(cons):
         ctx.violation("count:" + where, "number of constraints in the text differs from the number posted",
-                      {"program": ptag, "text": text, "in_text": nc, "posted": len(cons)})
-        return
+                      dict({"program": ptag, "text": text, "in_text": nc, "posted": len(cons),
+                            "posted_constraints": [exprio.show(c) for c in cons]}, **more))
+        return False
     for _ in range(4 if not ctx.thorough else 8):
         asg = gen_assignment(rng, variables, wild=True)
         sem = m.call("SEMD %s %s" % (hexs(text), pairs_tok(asg))).split()
         ev = m.call("EVAL %s %s" % (pairs_tok(asg), exprio.show_list(cons))).split()
-        ctx.prop_case("denote", (ptag, tuple(asg.items())))
+        ctx.prop_case("denote", (ptag, more.get("call", 0), tuple(asg.items())))
         if sem != ev:
             bad = [k for k in range(len(cons)) if k + 1 < len(sem) and k + 1 < len(ev) and sem[k + 1] != ev[k + 1]]
             k = bad[0] if bad else 0
@@ -791,18 +1011,18 @@ def check_text_property(ctx, m, rng, solver, text, deduction, where):
             root = getattr(getattr(c, "op", None), "name", type(c).__name__)
             ctx.violation("denote:%s:%s" % (where, root),
                           "a posted constraint and its emitted text mean different things under an assignment",
-                          {"constraint": exprio.show(c), "text_line": text.split("\n")[len(variables) + k],
-                           "assignment": {a: b for a, b in asg.items()},
-                           "meaning_of_text": sem[k + 1] if k + 1 < len(sem) else sem,
-                           "meaning_of_tree": ev[k + 1] if k + 1 < len(ev) else ev})
-            return
+                          dict({"constraint": exprio.show(c), "text_line": text.split("\n")[len(variables) + k],
+                                "assignment": {a: b for a, b in asg.items()},
+                                "meaning_of_text": sem[k + 1] if k + 1 < len(sem) else sem,
+                                "meaning_of_tree": ev[k + 1] if k + 1 < len(ev) else ev}, **more))
+            return False
+    return ok
 
 
 def check_reply_property(ctx, rec):
     """python_parse(format(env)) == env, with the right types, on the right variables."""
-    from cspuz.expr import BoolVar
-    solver, out, asg, refuted, deduction = rec["solver"], rec["out"], rec["asg"], rec["refuted"], rec["deduction"]
-    variables, keys = solver.variables, solver.is_answer_key
+    out, asg, refuted, deduction = rec["out"], rec["asg"], rec["refuted"], rec["deduction"]
+    variables, keys = rec["variables"], rec["keys"]
     ctx.prop_case("reply-reflected", (rec["tag"], rec["backend"], deduction, repr(asg), tuple(refuted)))
     where = "%s:%s" % (rec["backend"], "solve" if deduction else "find_answer")
     if asg is None:
@@ -814,7 +1034,322 @@ def check_reply_property(ctx, rec):
         want = ("ok", ["1"] + [val_tok(asg[name_of(v)]) for v in variables])
     if out != want:
         ctx.violation("reply:" + where, "a well-formed reply is not reflected into the sol fields",
-                      {"program": rec["tag"], "assignment": asg, "refuted": refuted, "expected": want, "observed": out})
+                      {("program" if rec.get("is_state", True) else "backend_object"): rec["tag"],
+                       "assignment": asg, "refuted": refuted, "expected": want, "observed": out})
+
+
+# ---- reference solver behind the fake entry points (search only) -------------------------------------
+# It reads the description it is handed with the reference Sugar parser (JL / SEMD of the runner), enumerates
+# the declared domains and answers in the protocol of CspuzSugarInterface.run() (JR).  With it the real
+# Solver.find_answer / Solver.solve are run end to end, histories included, and what they report is compared
+# with enumeration over the Solver's own variables and posted trees (EVAL).
+
+ENUM_LIMIT = 600
+
+
+def _cmdline():
+    from cspuz.configuration import config
+    return ("run_subprocess", [config.backend_path or "sugar", "/dev/stdin"])
+
+
+# which external solver each backend name stands for (docstring of cspuz.configuration.Config)
+ENTRY_SPEC = {
+    "sugar": _cmdline, "sugar_extended": _cmdline,
+    "csugar": lambda: ("pycsugar.solver", None),
+    "enigma_csp": lambda: ("enigma_csp.solver", None),
+    "cspuz_core": lambda: ("cspuz_core.solver", None),
+}
+
+
+class RefUnreadable(Exception):
+    pass
+
+
+def _product(doms):
+    import itertools
+    return itertools.product(*doms)
+
+
+def text_models(m, text):
+    """(names, keys | None, list of models) of a description; a model is a tuple of (name, token)."""
+    r = m.call("JL " + hexs(text)).split()
+    if r[0] != "OK":
+        raise RefUnreadable("not a CSP description")
+    i = r.index("K") + 1
+    if r[i] == "NULL":
+        keys = None
+        i += 1
+    else:
+        j = r.index("]", i)
+        keys = [unhex(k) for k in r[i + 1:j] if k != "-"]
+        i = j + 1
+    j = r.index("]", i + 1)
+    names, doms, total = [], [], 1
+    for d in r[i + 2:j]:
+        f = d.split(":")
+        if f[0] == "b":
+            names.append(unhex(f[1]))
+            doms.append([True, False])
+        elif f[0] == "i":
+            names.append(unhex(f[1]))
+            doms.append(list(range(int(f[2]), int(f[3]) + 1)))
+        else:
+            raise RefUnreadable("undecodable declaration")
+        total *= len(doms[-1])
+    if any((not n) or any(c in n for c in " =\t[]") for n in names) or len(set(names)) != len(names):
+        raise RefUnreadable("odd variable names %r" % names)
+    if total > 4 * ENUM_LIMIT:
+        raise RefUnreadable("domains too large to enumerate")
+    models = []
+    h = hexs(text)
+    for vals in _product(doms):
+        asg = dict(zip(names, vals))
+        sem = m.call("SEMD %s %s" % (h, pairs_tok(asg))).split()
+        if sem[0] == "OK" and all(x == "T" for x in sem[1:]):
+            models.append(tuple((n, val_tok(v)) for n, v in asg.items()))
+    return names, keys, models
+
+
+def tree_models(m, variables, cons):
+    """models of the posted trees over the Solver's declared domains, by enumeration"""
+    from cspuz.expr import BoolVar
+    names = [name_of(v) for v in variables]
+    doms = [[True, False] if isinstance(v, BoolVar) else list(range(v.lo, v.hi + 1)) for v in variables]
+    lst = exprio.show_list(cons)
+    models = []
+    for vals in _product(doms):
+        asg = dict(zip(names, vals))
+        ev = m.call("EVAL %s %s" % (pairs_tok(asg), lst)).split()
+        if ev[0] == "OK" and all(x == "T" for x in ev[1:]):
+            models.append(tuple((n, val_tok(v)) for n, v in asg.items()))
+    return models
+
+
+class RefSolver:
+    def __init__(self, m, pick, bound):
+        self.m, self.pick, self.bound = m, pick, bound
+        self.log = []
+
+    def choose(self, models, i):
+        if self.pick == "first":
+            return models[0]
+        if self.pick == "last":
+            return models[-1]
+        return models[(7 * i + 3) % len(models)]
+
+    def respond(self, i, text):
+        if i > self.bound:
+            raise RuntimeError("the loop did not end after %d calls of a correct solver" % i)
+        entry = {"text": text, "models": None, "chosen": None}
+        self.log.append(entry)
+        names, keys, models = text_models(self.m, text)
+        entry["models"] = models
+        if not models:
+            rep = java_reply(self.m, text, None)
+        else:
+            ch = self.choose(models, i)
+            entry["chosen"] = ch
+            asg = {n: (True if t == "T" else False if t == "F" else int(t[1:])) for n, t in ch}
+            refuted = []
+            if keys is not None:
+                pos = {n: k for k, (n, _) in enumerate(ch)}
+                for kname in keys:
+                    if kname not in pos:
+                        raise RefUnreadable("answer key %r is not declared" % kname)
+                    if any(mod[pos[kname]] != ch[pos[kname]] for mod in models):
+                        refuted.append(kname)
+            rep = java_reply(self.m, text, asg, refuted)
+        if rep is None:
+            raise RefUnreadable("run() cannot print the reply")
+        return rep
+
+
+def expected_report(variables, keys, models, deduction):
+    """what find_answer / solve must report when the external solver is correct (C01 / C02)"""
+    if not models:
+        return ("exact", ("ok", ["0"] + ["N"] * len(variables)))
+    if not deduction:
+        return ("member", models)
+    sols = []
+    for k, (v, key) in enumerate(zip(variables, keys)):
+        vals = set(mod[k][1] for mod in models)
+        sols.append(vals.pop() if key and len(vals) == 1 else "N")
+    return ("exact", ("ok", ["1"] + sols))
+
+
+def report_ok(out, exp, variables):
+    if exp[0] == "exact":
+        return out == exp[1]
+    if out[0] != "ok" or out[1][0] != "1" or len(out[1]) != len(variables) + 1:
+        return False
+    return tuple((name_of(v), t) for v, t in zip(variables, out[1][1:])) in set(exp[1])
+
+
+def ref_flow(ctx, m, rng, flow, solver=None, history=None):
+    """one call of the real Solver API with the reference solver behind the backend; flow is a replayable
+    recipe {program, backend, api, pick, form, stale}."""
+    if solver is None:
+        solver = solver_of_state(flow["program"])
+    backend, api = flow["backend"], flow["api"]
+    deduction = api == "solve"
+    variables, keys, cons = solver.variables, list(solver.is_answer_key), list(solver.constraints)
+    ptag = exprio.show_state(solver)
+    where = ("history:" if history else "") + "%s:%s" % (backend, api)
+    recipe = history or flow
+    M = tree_models(m, variables, cons)
+    ref = RefSolver(m, flow.get("pick", "first"), 2 * len(variables) + 6)
+    from cspuz.configuration import config
+    saved_path, saved_timeout = config.backend_path, config.solver_timeout
+    if "backend_path" in flow:
+        config.backend_path = flow["backend_path"]
+    if "solver_timeout" in flow:
+        config.solver_timeout = flow["solver_timeout"]
+    try:
+        out, calls, posted = run_solver_flow(ctx, m, solver, backend, deduction, ref.respond,
+                                             form=flow.get("form", "name"), stale=flow.get("stale", True))
+        want_entry = ENTRY_SPEC[backend]()
+    finally:
+        config.backend_path, config.solver_timeout = saved_path, saved_timeout
+    for ci, (ent, args, text) in enumerate(calls):
+        if (ent, args) != want_entry:
+            ctx.violation("entry:" + where, "the description was not handed to the external solver this backend names",
+                          {"program": ptag, "call": ci, "expected": want_entry, "observed": (ent, args), "flow": recipe})
+    ctx.prop_case("ref-" + api, (ptag, backend, flow.get("pick"), flow.get("form"), bool(history)))
+    ctx.count("ref:%s:%s:%s" % (api, "unsat" if not M else "sat",
+                                "loop%d" % min(len(calls), 4) if deduction and backend == "sugar" else "native"))
+    exp = expected_report(variables, keys, M, deduction)
+    if not report_ok(out, exp, variables):
+        ctx.violation("facts:" + where,
+                      "with a correct external solver behind the backend, what the Solver reports differs from "
+                      "enumeration of its program",
+                      {"program": ptag, "expected": exp[1] if exp[0] == "exact" else {"one_of_models": list(exp[1])[:8]},
+                       "observed": out, "descriptions": [c[2] for c in calls][:6],
+                       "solver_saw_models": [len(e["models"]) if e["models"] is not None else None for e in ref.log][:8],
+                       "flow": recipe})
+    # every description (the first one and each one of the refinement loop) = the full constraint set
+    for ci, (ent, args, text) in enumerate(calls):
+        flat = flat_posted(posted[ci] if ci < len(posted) else [])
+        w = where + (":loop" if ci else "")
+        more = {"call": ci, "posted_by_loop": [exprio.show(c) for c in flat], "flow": recipe}
+        native = deduction and backend != "sugar"
+        if not check_text_property(ctx, m, rng, variables, keys, cons + flat, text, native, w, ptag, more):
+            continue
+        Mi = tree_models(m, variables, cons + flat) if flat else M
+        Ti = ref.log[ci]["models"] if ci < len(ref.log) else None
+        ctx.prop_case("models", (ptag, backend, api, ci))
+        if Ti is not None and set(Ti) != set(Mi):
+            only_text = sorted(set(Ti) - set(Mi))[:3]
+            only_tree = sorted(set(Mi) - set(Ti))[:3]
+            ctx.violation("models:" + w, "the models of the emitted description are not the models of the posted "
+                          "constraints (exhaustive over the declared domains)",
+                          dict({"program": ptag, "text": text, "models_of_text_only": only_text,
+                                "models_of_program_only": only_tree}, **more))
+    return out
+
+
+def ref_history(ctx, m, rng, recipe):
+    """class 3 at the Solver level with the reference solver: calls, Solver.ensure / add_answer_key in
+    between, calls again; every report is compared with enumeration of the program as it is then."""
+    solver = solver_of_state(recipe["program"])
+    called = False
+    for st in recipe["steps"]:
+        if "ensure" in st:
+            es = [exprio.parse(x, solver.variables) for x in st["ensure"]]
+            if st.get("as_list"):
+                solver.ensure(es)
+            else:
+                for e in es:
+                    solver.ensure(e)
+        elif "add_key" in st:
+            solver.add_answer_key(solver.variables[st["add_key"]])
+        else:
+            ref_flow(ctx, m, rng, dict(st, stale=not called and st.get("stale", False)), solver=solver, history=recipe)
+            called = True
+
+
+def gen_small_program(rng):
+    """a program small enough for enumeration: 1-4 variables, domains of 1-4 values placed at 0, below -5,
+    around 256 and far out (class 2; all bounds and literals are run-time ints), constraints built with the
+    public operators and with the grammar generator, chosen so that several models usually remain."""
+    from cspuz import Solver, alldifferent, count_true
+    from cspuz.expr import BoolExpr, IntExpr, Op
+    s = Solver()
+    nv = rng.choice([1, 2, 2, 3, 3, 3, 4])
+    base = rng.choice([0, 0, 0, 1, -2, -7, -6, 254, 255, 256, 1000, -300, 65535])
+    bvars, ivars, lits, total = [], [], [0, 1, 2], 1
+    for _ in range(nv):
+        if rng.random() < 0.45:
+            bvars.append(s.bool_var())
+            total *= 2
+        else:
+            lo = base + rng.choice([0, 0, 0, 1, -1]) if rng.random() < 0.8 else rng.choice([0, -6, 255, 4095])
+            w = rng.choice([1, 2, 2, 3, 3, 4])
+            if total * w > ENUM_LIMIT // 4:
+                w = 1
+            ivars.append(s.int_var(fresh(lo), fresh(lo + w - 1)))
+            total *= w
+            lits += list(range(lo - 1, lo + w + 1))
+    g = Gen(rng, bvars, ivars, lits=lits)
+
+    def iv():
+        return rng.choice(ivars) if ivars and rng.random() < 0.8 else g.int_lit()
+
+    def bv():
+        return rng.choice(bvars) if bvars and rng.random() < 0.8 else (rng.random() < 0.5)
+    for _ in range(rng.choice([0, 1, 1, 2, 2, 3])):
+        t = rng.randrange(12)
+        if t < 4 or not (ivars or bvars):
+            c = g.gbool(rng.choice([0, 1, 1, 2, 2, 3]))
+        elif t == 4 and ivars:
+            c = rng.choice(ivars) != g.int_lit()
+        elif t == 5 and ivars:
+            c = iv() + iv() <= g.int_lit() + g.int_lit()
+        elif t == 6 and bvars:
+            x = rng.choice(bvars)
+            c = x.then(iv() == iv()) if rng.random() < 0.5 else (x == (iv() < iv()))
+        elif t == 7 and bvars:
+            c = (bv() | bv()) if rng.random() < 0.5 else ~(rng.choice(bvars) & bv())
+        elif t == 8 and len(ivars) >= 2:
+            c = alldifferent(ivars)
+        elif t == 9 and bvars:
+            c = count_true(bvars) == fresh(rng.randint(0, len(bvars)))
+        elif t == 10 and ivars:
+            x = rng.choice(ivars)
+            c = x == fresh(rng.randint(x.lo, x.hi))
+        else:
+            c = g.gbool(2)
+        if c is NotImplemented or not isinstance(c, (bool, BoolExpr)):
+            c = g.gbool(1)
+        s.constraints.append(c)
+    mode = rng.random()
+    for v in s.variables:
+        if mode > 0.2 and (mode > 0.7 or rng.random() < 0.6):
+            s.add_answer_key(v)
+    return s
+
+
+def gen_more_constraints(rng, solver):
+    """strings of the constraints a history posts between two calls: sometimes a contradiction (sat, then
+    unsat), sometimes constraints that keep some models"""
+    from cspuz.expr import BoolVar
+    bvars = [v for v in solver.variables if isinstance(v, BoolVar)]
+    ivars = [v for v in solver.variables if not isinstance(v, BoolVar)]
+    lits = [0, 1]
+    for v in ivars:
+        lits += list(range(v.lo - 1, v.hi + 2))
+    g = Gen(rng, bvars, ivars, lits=lits)
+    k = rng.random()
+    if k < 0.35:
+        opts = ["F", "( B BOOL_CONSTANT F )", "( B OR )"]
+        if bvars:
+            b = exprio.show(rng.choice(bvars))
+            opts += ["( B AND %s ( B NOT %s ) )" % (b, b), "( B XOR %s %s )" % (b, b)]
+        if ivars:
+            v = rng.choice(ivars)
+            x = exprio.show(v)
+            opts += ["( B NE %s %s )" % (x, x), "( B EQ %s #%d )" % (x, v.hi + 1), "( B LT %s #%d )" % (x, v.lo)]
+        return [rng.choice(opts)]
+    return [exprio.show(g.gbool(rng.choice([0, 1, 2]))) for _ in range(rng.choice([0, 1, 1, 2]))]
 
 
 def search(ctx):
@@ -829,7 +1364,60 @@ def search(ctx):
             continue
         seen.add(key)
         where = "%s:%s" % (rec["backend"], "solve" if rec["deduction"] else "find_answer")
-        check_text_property(ctx, m, rng, rec["solver"], rec["text"], rec["deduction"], where)
+        check_text_property(ctx, m, rng, rec["variables"], rec["keys"], rec["cons"], rec["text"], rec["deduction"],
+                            where, rec["tag"], None if rec.get("is_state", True) else {"backend_object": True})
+    # the descriptions of the refinement loop of Solver.solve(backend="sugar") recorded by correspond
+    # (canned answers, programs of every size): each one must denote Solver.constraints + the clauses so far
+    for rec in getattr(ctx, "_c03_loops", []):
+        if (rec["tag"], "loop") in seen:
+            continue
+        seen.add((rec["tag"], "loop"))
+        for ci, text in enumerate(rec["texts"][:4]):
+            flat = rec["posted"][ci] if ci < len(rec["posted"]) else []
+            check_text_property(ctx, m, rng, rec["variables"], rec["keys"], rec["cons"] + flat, text, False,
+                                "sugar:solve" + (":loop" if ci else ""), rec["tag"],
+                                {"call": ci, "posted_by_loop": [exprio.show(c) for c in flat], "flow": rec["flow"]})
+    # end to end with a reference solver: small programs, all five backends, both APIs, every way of naming
+    # the backend; the plain `sugar` deduction route (several descriptions on one backend object) most often
+    n_ref = 900 if ctx.thorough else 260
+    if ctx.deep:
+        n_ref *= 2
+    for k in range(n_ref):
+        solver = gen_small_program(rng)
+        r = k % 8
+        backend = "sugar" if r < 4 else BACKENDS[1 + k % 4]
+        api = "find_answer" if r in (3, 7) else "solve"
+        flow = {"kind": "ref", "program": exprio.show_state(solver), "backend": backend, "api": api,
+                "pick": rng.choice(["first", "last", "rot"]), "form": rng.choice(FORMS), "stale": rng.random() < 0.7}
+        if rng.random() < 0.3:
+            flow["backend_path"] = rng.choice([None, "", "/opt/sugar/bin/sugar", "sugar_ext.sh"])
+        if rng.random() < 0.15:
+            flow["solver_timeout"] = rng.choice([None, 5.0, 0])
+        ref_flow(ctx, m, rng, flow)
+    n_hist = 300 if ctx.thorough else 90
+    if ctx.deep:
+        n_hist *= 2
+    for k in range(n_hist):
+        solver = gen_small_program(rng)
+        steps = []
+
+        def a_call():
+            return {"backend": rng.choice(BACKENDS), "api": rng.choice(["solve", "solve", "find_answer"]),
+                    "pick": rng.choice(["first", "last", "rot"]), "form": rng.choice(FORMS)}
+        steps.append(dict(a_call(), stale=rng.random() < 0.5))
+        probe = solver_of_state(exprio.show_state(solver))
+        for _ in range(rng.choice([1, 1, 2])):
+            more = gen_more_constraints(rng, probe)
+            steps.append({"ensure": more, "as_list": rng.random() < 0.5})
+            rest = [i for i, kf in enumerate(probe.is_answer_key) if not kf]
+            if rest and rng.random() < 0.25:
+                i = rng.choice(rest)
+                probe.is_answer_key[i] = True
+                steps.append({"add_key": i})
+            steps.append(a_call())
+        if rng.random() < 0.3:
+            steps.append(dict(steps[-1]))  # the same call once more: nothing changed, same report
+        ref_history(ctx, m, rng, {"kind": "ref-history", "program": exprio.show_state(solver), "steps": steps})
     extra = 0
     if ctx.deep or not recs:
         extra = 1500 if ctx.thorough else 500
@@ -849,11 +1437,32 @@ def search(ctx):
         if not calls:
             ctx.violation("noconv:%s" % backend, "a well-typed program could not be converted", {"program": exprio.show_state(solver), "outcome": out})
             continue
-        rec = dict(solver=solver, backend=backend, deduction=deduction, text=calls[0][2], asg=asg if sat else None,
+        rec = dict(variables=solver.variables, keys=list(solver.is_answer_key), cons=list(solver.constraints),
+                   backend=backend, deduction=deduction, text=calls[0][2], asg=asg if sat else None,
                    refuted=refuted, out=out, tag=exprio.show_state(solver))
         check_reply_property(ctx, rec)
-        check_text_property(ctx, m, rng, solver, calls[0][2], deduction,
-                            "%s:%s" % (backend, "solve" if deduction else "find_answer"))
+        check_text_property(ctx, m, rng, rec["variables"], rec["keys"], rec["cons"], calls[0][2], deduction,
+                            "%s:%s" % (backend, "solve" if deduction else "find_answer"), rec["tag"])
+
+
+def canned_loop(ctx, m, rng, flow):
+    """replay of a recorded Solver.solve(backend="sugar") run with canned answers: every description of the
+    loop against the constraints posted so far"""
+    solver = solver_of_state(flow["program"])
+    plan = list(flow.get("plan", []))
+
+    def responder(i, text):
+        if i > 8:
+            raise RuntimeError("more than 9 solver calls for a 3-answer plan")
+        cur = plan[i] if i < len(plan) and i < 2 else None
+        return java_reply(m, text, cur) or "s UNSATISFIABLE\n"
+    cons = list(solver.constraints)
+    out, calls, posted = run_solver_flow(ctx, m, solver, "sugar", True, responder)
+    for ci, (ent, args, text) in enumerate(calls[:4]):
+        flat = flat_posted(posted[ci] if ci < len(posted) else [])
+        check_text_property(ctx, m, rng, solver.variables, list(solver.is_answer_key), cons + flat, text, False,
+                            "sugar:solve" + (":loop" if ci else ""), flow["program"], {"call": ci})
+    return out, calls
 
 
 def solver_of_state(text):
@@ -899,6 +1508,20 @@ def replay(ctx, rp):
     v = viol.get("detail", {})
     m = ctx.model("C03")
     try:
+        flow = v.get("flow") if isinstance(v, dict) else None
+        if isinstance(flow, dict) and flow.get("kind") in ("ref", "ref-history", "canned-loop"):
+            if flow["kind"] == "ref":
+                print("outcome:", ref_flow(ctx, m, ctx.rng, flow))
+            elif flow["kind"] == "ref-history":
+                ref_history(ctx, m, ctx.rng, flow)
+            else:
+                out, calls = canned_loop(ctx, m, ctx.rng, flow)
+                print("outcome:", out)
+                for c in calls:
+                    print("description handed to the solver:\n" + c[2] + "\n--")
+            for x in ctx.violations:
+                print("VIOLATION reproduced:", x["key"], x["what"], x["detail"])
+            return 1 if ctx.violations else 0
         if "constraint" in v:
             import cspuz.backend.sugar_like as sl
             e = exprio.parse(v["constraint"])
@@ -923,10 +1546,12 @@ def replay(ctx, rp):
             print("outcome:", out)
             if calls:
                 print("text handed to the solver:\n" + calls[0][2])
-                rec = dict(solver=solver, backend=backend, deduction=deduction, text=calls[0][2],
+                rec = dict(variables=solver.variables, keys=list(solver.is_answer_key), cons=list(solver.constraints),
+                           backend=backend, deduction=deduction, text=calls[0][2],
                            asg=asg if sat else None, refuted=refuted, out=out, tag=v["program"])
                 check_reply_property(ctx, rec)
-                check_text_property(ctx, m, ctx.rng, solver, calls[0][2], deduction, "replay")
+                check_text_property(ctx, m, ctx.rng, rec["variables"], rec["keys"], rec["cons"], calls[0][2],
+                                    deduction and backend != "sugar", "replay", v["program"])
             for x in ctx.violations:
                 print("VIOLATION reproduced:", x["what"], x["detail"])
             return 1 if ctx.violations or not calls else 0
